@@ -19,10 +19,24 @@ var restPool = []string{"//example.com/", "//example.org/a?b=c#d", "//example.or
 var relPool = []string{"/a/b", "a/b", "../x", "//host/p", "#f", "?q", "a:b", "./a:b", "%6aavascript:alert(1)", "\\\\evil.com\\x", "/\\evil", "", ".", "a b", "a\tb", "é", "%zz", "//", "///x", "////x", ":x",
 	"/:x", "/ok/x", "?a=<b>&c=\"d\"", "#\"><x>", "a\x00b", "a\x7fb", "/a?b=c;d=e"}
 
-func genURL(t *rapid.T) string {
+func genURL(t *rapid.T) string { return genURLFor(t, nil) }
+
+// genURLFor biases a third of the URLs towards the schemes the policy itself allows, so that
+// survivors and custom-check invocations are frequent.
+func genURLFor(t *rapid.T, m *Model) string {
 	pad := func() string { return rapid.SampledFrom(padPool).Draw(t, "pad") }
 	var u string
-	if rapid.IntRange(0, 3).Draw(t, "rel") == 0 {
+	if m != nil && len(m.schemes) > 0 && rapid.IntRange(0, 2).Draw(t, "own") == 0 {
+		schemes := make([]string, 0, len(m.schemes))
+		for k := range m.schemes {
+			schemes = append(schemes, k)
+		}
+		sort.Strings(schemes)
+		u = mangleCase(t, rapid.SampledFrom(schemes).Draw(t, "ownsch")) + ":" + rapid.SampledFrom(restPool).Draw(t, "rest")
+		if rapid.IntRange(0, 3).Draw(t, "ownpad") == 0 {
+			u = pad() + u + pad()
+		}
+	} else if rapid.IntRange(0, 3).Draw(t, "rel") == 0 {
 		u = pad() + rapid.SampledFrom(relPool).Draw(t, "relv") + pad()
 	} else {
 		sep := rapid.SampledFrom([]string{":", ":", ":", ":", "&colon;", "&#58;", "&#x3a;", "%3a", " :", ":\t"}).Draw(t, "sep")
@@ -70,10 +84,11 @@ func genC03(t *rapid.T) *Case {
 		spec.Ops = append(spec.Ops, Op{Kind: "RequireParseableURLs", B: true, ValRe: -1})
 	}
 	var sb strings.Builder
+	m := BuildModel(spec)
 	n := rapid.IntRange(1, 3).Draw(t, "nurls")
 	for i := 0; i < n; i++ {
 		pos := rapid.SampledFrom(urlPositions).Draw(t, "pos")
-		u := genURL(t)
+		u := genURLFor(t, m)
 		quote := rapid.SampledFrom([]string{`"`, `"`, `'`}).Draw(t, "quote")
 		esc := strings.ReplaceAll(u, quote, map[string]string{`"`: "&quot;", `'`: "&#39;"}[quote])
 		sb.WriteString("<" + pos[0] + " " + pos[1] + "=" + quote + esc + quote)
